@@ -45,3 +45,39 @@ Theorem C04_clamp_in_both_boxes_f32 :
   intersection a1 a2 b1 b2 = LPoint q ->
   okpt (NB_laws 24 128) q /\ in_seg_box a1 a2 q /\ in_seg_box b1 b2 q.
 Proof. exact (@intersection_point_in_both_boxes NB32 (NB_laws 24 128)). Qed.
+
+(** ** no invented vertices, every instance (floats included), every input, every configuration:
+    every coordinate pair of every ring of the result is an input vertex, or a point returned by
+    [intersection] (the clamped computed point) for two segments whose endpoints are such
+    points, or such a point after the one-ulp bump of divide_segment.  Proved as an invariant of
+    fill_queue, the whole sweep loop and the contour assembly ([Provenance.v]); over exact
+    arithmetic the returned points are the exact intersection points and the bump is the
+    identity (C04_exact_arithmetic_exact_points, PiProofs). *)
+From Coq Require Import List.
+From GB Require Import Event Outcome BoolOp Provenance.
+
+Theorem C04_output_points_allowed :
+  forall (N : Num) (inp : list (pt N)) cfg fuel (A B : list (FillQueue.polygon N)) (op : operation)
+         (R : list (FillQueue.polygon N)),
+  polys_in N inp A -> polys_in N inp B ->
+  boolean_operation cfg fuel A B op = Ok R ->
+  forall P p, In P R -> In p (poly_pts N P) -> allowed N inp p.
+Proof. exact output_points_allowed. Qed.
+
+(** the inductive definition of "allowed", spelled out *)
+Theorem C04_allowed_cases :
+  forall (N : Num) (inp : list (pt N)) (p : pt N), allowed N inp p ->
+  In p inp
+  \/ (exists a1 a2 b1 b2, allowed N inp a1 /\ allowed N inp a2 /\ allowed N inp b1 /\ allowed N inp b2
+                         /\ intersection a1 a2 b1 b2 = LPoint p)
+  \/ (exists q, allowed N inp q /\ p = mkPt N (next_upX N (px q)) (py q)).
+Proof.
+  exact (fun N inp p H =>
+    match H with
+    | al_in _ _ p0 Hin => or_introl Hin
+    | al_inter _ _ a1 a2 b1 b2 p0 H1 H2 H3 H4 E =>
+        or_intror (or_introl (ex_intro _ a1 (ex_intro _ a2 (ex_intro _ b1 (ex_intro _ b2
+          (conj H1 (conj H2 (conj H3 (conj H4 E)))))))))
+    | al_bump _ _ q Hq => or_intror (or_intror (ex_intro _ q (conj Hq eq_refl)))
+    end).
+Qed.
